@@ -103,62 +103,100 @@ def run(ctx, prog):
                        'global bucket); the global bucket is consumed only after the tenant passed; a global refusal refunds the tenant '
                        'before returning false; the buckets map lock is not held while a bucket is consumed')
     cl = ctx.body('C19.R2', 'RateLimiter::check_limit')
-    of = flow.Origin(cl)
-    tcs = cl.calls_to('TokenBucket::try_consume')
-    marks = {'t_ok': set(), 't_fail': set(), 'g_ok': set(), 'g_fail': set()}
-    n_t = n_g = 0
-    for c in tcs:
-        recv = flow.render(of.of_operand(c.args[0]))
-        s_e, f_e = flow.outcome_edges(cl, c)
-        if s_e is None:
-            ctx.inst('C19.R2', cl.short, 'try_consume result tested', False, 'result of try_consume at %s not tested' % c.loc)
-            continue
-        if 'RateLimiter.global_bucket' in recv:
-            n_g += 1
-            marks['g_ok'] |= set(s_e)
-            marks['g_fail'] |= set(f_e)
-        else:
-            n_t += 1
-            marks['t_ok'] |= set(s_e)
-            marks['t_fail'] |= set(f_e)
-    ctx.floor('C19.R2', 'tenant try_consume sites', n_t, 2, 'existing-bucket path and new-bucket path')
-    ctx.floor('C19.R2', 'global try_consume sites', n_g, 2, 'existing-bucket path and new-bucket path')
-    marks['g_none'] = set(util.option_edges(cl, r'RateLimiter\.global_bucket$', 'None'))
-    refund = set(c.bb for c in cl.calls_to('TokenBucket::refund_one'))
-    ret_true, ret_false = set(), set()
-    for i, blk in enumerate(cl.blocks):
-        for s in blk['s']:
-            rv = s.get('rv')
-            if rv and s['pl']['l'] == 0 and not s['pl'].get('p') and rv['k'] == 'use' and rv['a'].get('k') == 'c' and rv['a'].get('ty') == 'bool':
-                (ret_true if rv['a'].get('int') == 1 else ret_false).add(i)
-    terms, seen = pathsens.explore(cl, [], mark_edges=marks, mark_blocks={'refunded': refund, 'ret_true': ret_true, 'ret_false': ret_false})
-    bad = []
-    for (rb, via, a, path) in terms:
-        if a.get('ret_true') and not a.get('ret_false'):
-            if not (a.get('t_ok') and (a.get('g_ok') or a.get('g_none'))):
-                bad.append(('returns true without both consumptions', a))
-        if a.get('g_ok') or a.get('g_fail'):
-            if not a.get('t_ok'):
-                bad.append(('consumes the global bucket although the tenant did not pass', a))
-        if a.get('g_fail') and not a.get('refunded'):
-            bad.append(('global refusal without refunding the tenant token', a))
-        if a.get('t_fail') and a.get('ret_true'):
-            bad.append(('tenant refusal reaches `true`', a))
-        if (a.get('t_fail') or a.get('g_fail')) and not a.get('ret_false'):
-            bad.append(('a refusal does not return false', a))
-    ctx.inst('C19.R2', cl.short, 'consume tenant → consume global → refund shape on every path', not bad and bool(terms),
-             '; '.join('%s %s' % (w, {k: v for k, v in a.items()}) for w, a in bad[:3]) if bad else '%d abstract return states checked' % len(terms))
-    # refund goes to the tenant bucket
-    for c in cl.calls_to('TokenBucket::refund_one'):
-        recv = flow.render(of.of_operand(c.args[0]))
-        ctx.inst('C19.R2', cl.short, 'refund targets the tenant bucket #%d' % sorted(refund).index(c.bb), 'global_bucket' not in recv, 'refund_one on %s' % recv[:100])
     lm = LockModel(prog)
-    k = 0
-    for c in cl.calls_to('TokenBucket::try_consume', 'TokenBucket::refund_one'):
-        h = lm.held_at(cl, c.bb, must=False)
-        ctx.inst('C19.R2', cl.short, 'consumption #%d without the map lock' % k, 'RateLimiter.buckets' not in h,
-                 '%s at %s: may-held = %s' % (flow.short(c.callee), c.loc, sorted(h)))
-        k += 1
+
+    def admission_shape(u, floor_t, floor_g):
+        """tenant → global → refund shape of one function that consumes the buckets itself."""
+        of = flow.Origin(u)
+        tcs = u.calls_to('TokenBucket::try_consume')
+        marks = {'t_ok': set(), 't_fail': set(), 'g_ok': set(), 'g_fail': set()}
+        n_t = n_g = 0
+        for c in tcs:
+            recv = flow.render(of.of_operand(c.args[0]))
+            s_e, f_e = flow.outcome_edges(u, c)
+            if s_e is None:
+                ctx.inst('C19.R2', u.short, 'try_consume result tested', False, 'result of try_consume at %s is not tested on the spot (returned or stored), so the order of the two consumptions cannot be established' % c.loc)
+                continue
+            if 'RateLimiter.global_bucket' in recv:
+                n_g += 1
+                marks['g_ok'] |= set(s_e)
+                marks['g_fail'] |= set(f_e)
+            else:
+                n_t += 1
+                marks['t_ok'] |= set(s_e)
+                marks['t_fail'] |= set(f_e)
+        ctx.floor('C19.R2', 'tenant try_consume sites in %s' % u.name, n_t, floor_t, 'existing-bucket path and new-bucket path' if floor_t == 2 else 'shared admission helper')
+        ctx.floor('C19.R2', 'global try_consume sites in %s' % u.name, n_g, floor_g, 'existing-bucket path and new-bucket path' if floor_g == 2 else 'shared admission helper')
+        marks['g_none'] = set(util.option_edges(u, r'RateLimiter\.global_bucket$', 'None'))
+        refund = set(c.bb for c in u.calls_to('TokenBucket::refund_one'))
+        ret_true, ret_false = set(), set()
+        for i, blk in enumerate(u.blocks):
+            for s_ in blk['s']:
+                rv = s_.get('rv')
+                if rv and s_['pl']['l'] == 0 and not s_['pl'].get('p') and rv['k'] == 'use' and rv['a'].get('k') == 'c' and rv['a'].get('ty') == 'bool':
+                    (ret_true if rv['a'].get('int') == 1 else ret_false).add(i)
+        terms, seen = pathsens.explore(u, [], mark_edges=marks, mark_blocks={'refunded': refund, 'ret_true': ret_true, 'ret_false': ret_false})
+        bad = []
+        for (rb, via, a_, path) in terms:
+            if a_.get('ret_true') and not a_.get('ret_false'):
+                if not (a_.get('t_ok') and (a_.get('g_ok') or a_.get('g_none'))):
+                    bad.append(('returns true without both consumptions', a_))
+            if a_.get('g_ok') or a_.get('g_fail'):
+                if not a_.get('t_ok'):
+                    bad.append(('consumes the global bucket although the tenant did not pass (a tenant refusal then burns a global token)', a_))
+            if a_.get('g_fail') and not a_.get('refunded'):
+                bad.append(('global refusal without refunding the tenant token', a_))
+            if a_.get('t_fail') and a_.get('ret_true'):
+                bad.append(('tenant refusal reaches `true`', a_))
+            if (a_.get('t_fail') or a_.get('g_fail')) and not a_.get('ret_false'):
+                bad.append(('a refusal does not return false', a_))
+        ctx.inst('C19.R2', u.short, 'consume tenant → consume global → refund shape on every path', not bad and bool(terms),
+                 '; '.join('%s %s' % (w, {k_: v_ for k_, v_ in a_.items()}) for w, a_ in bad[:3]) if bad else '%d abstract return states checked' % len(terms))
+        for c in u.calls_to('TokenBucket::refund_one'):
+            recv = flow.render(of.of_operand(c.args[0]))
+            ctx.inst('C19.R2', u.short, 'refund targets the tenant bucket #%d' % sorted(refund).index(c.bb), 'global_bucket' not in recv, 'refund_one on %s' % recv[:100])
+        k_ = 0
+        for c in u.calls_to('TokenBucket::try_consume', 'TokenBucket::refund_one'):
+            h = lm.held_at(u, c.bb, must=False)
+            ctx.inst('C19.R2', u.short, 'consumption #%d without the map lock' % k_, 'RateLimiter.buckets' not in h,
+                     '%s at %s: may-held = %s' % (flow.short(c.callee), c.loc, sorted(h)))
+            k_ += 1
+
+    if cl.calls_to('TokenBucket::try_consume'):
+        admission_shape(cl, 2, 2)
+    else:
+        # the admission step lives in a helper: the shape is checked there, and check_limit answers with the helper's verdict
+        units = []
+        for c in cl.calls:
+            g = prog.resolve_local(c.callee) if c.callee else None
+            if g is not None and '::RateLimiter::' in g.id and g.calls_to('TokenBucket::try_consume') and g not in units:
+                units.append(g)
+        if not units:
+            ctx.missing('C19.R2', 'check_limit: consumption of the buckets (directly or in a helper it calls)')
+        for u in units:
+            admission_shape(u, 1, 1)
+        ucalls = [c for c in cl.calls if c.callee and prog.resolve_local(c.callee) in units]
+        defs0 = [d for d in cl.defs.get(0, [])]
+        ok = bool(ucalls)
+        why = []
+        for d in defs0:
+            if d[2] == 'call' and d[3] in ucalls:
+                continue
+            if d[2] == 'assign' and d[3]['rv']['k'] == 'use' and d[3]['rv']['a'].get('k') == 'c' and d[3]['rv']['a'].get('int') == 0:
+                continue
+            if d[2] == 'assign':
+                # `true` only on the success edge of a helper call
+                se = [e for c in ucalls for e in (flow.success_edges(cl, c) or [])]
+                if se and d[0] not in cl.reach([0], avoid_edges=se):
+                    continue
+            ok = False
+            why.append('return value set at %s is not the helper\'s verdict' % cl.loc_of(d[0]))
+        for c in ucalls:
+            h = lm.held_at(cl, c.bb, must=False)
+            if 'RateLimiter.buckets' in h:
+                ok = False
+                why.append('helper called with the buckets map lock held')
+        ctx.inst('C19.R2', cl.short, 'answers with the admission helper\'s verdict, map lock released', ok, '; '.join(why) or 'helper(s): %s' % [u.name for u in units])
 
     # ------------------------------------------------------------------ R3
     ctx.rule('C19.R3', 'limiter everywhere: enforce_rate_limit returns Ok only past check_limit = true (tenant absent excepted); every '
